@@ -343,6 +343,18 @@ func (e *Engine) bitop(op token.Token, x, y string, t types.Type) string {
 	case token.AND_NOT:
 		facts = append(facts, implies(nonneg, and(sx("<=", "0", r), sx("<=", r, x))))
 	}
+	// exact on 0/1-valued operands (flags combined with bit operations, as in constant-time code)
+	flags := and(sx("<=", "0", x), sx("<=", x, "1"), sx("<=", "0", y), sx("<=", y, "1"))
+	switch op {
+	case token.AND:
+		facts = append(facts, implies(flags, eq(r, ite(and(eq(x, "1"), eq(y, "1")), "1", "0"))))
+	case token.OR:
+		facts = append(facts, implies(flags, eq(r, ite(or(eq(x, "1"), eq(y, "1")), "1", "0"))))
+	case token.XOR:
+		facts = append(facts, implies(flags, eq(r, ite(eq(x, y), "0", "1"))))
+	case token.AND_NOT:
+		facts = append(facts, implies(flags, eq(r, ite(and(eq(x, "1"), eq(y, "0")), "1", "0"))))
+	}
 	e.ctx.Assume(and(facts...))
 	return r
 }
